@@ -316,6 +316,27 @@ def run(R, only=None):
             steps.append({"sql": "insert into a values " + ", ".join("(" + ", ".join(c02.lit(v) for v in r) + ")" for r in batch)})
         steps += tail_steps(q)
         cases.append({"engine": rng.choice(["disk", "disk", "mem"]), "steps": steps, "q": q, "ks": ks, "tags": {"keyed"}, "a": a_b, "b": []})
+    # aggregation over ordered inputs (the sort-aggregation rule): groups of several keys whose rows are NOT adjacent unless the input is
+    # ordered on all of them — few distinct values, many duplicates, orders on a prefix / a suffix / all of the group keys
+    for i in range(40 if R.tier == "quick" else 500):
+        rng = R.rng
+        q = rng.choice([
+            "select x, y, count(*) from (select x, y from a order by x) t group by x, y", "select x, y, sum(y), min(x) from (select x, y from a order by x) t group by x, y",
+            "select y, x, count(*) from (select x, y from a order by y) t group by y, x", "select x, y, count(*) from (select x, y from a order by x, y) t group by x, y",
+            "select x, count(*) from (select x, y from a order by x, y) t group by x", "select y, count(*) from (select x, y from a order by x, y) t group by y",
+            "select x, y, count(*) from (select x, y from a order by y) t group by x, y", "select x, y, count(*) from (select x, y from a order by x desc) t group by x, y",
+            "select k, v, count(*) from p group by k, v", "select k, v, sum(v) from p group by k, v", "select v, k, count(*) from p group by v, k",
+            "select k, count(*) from p group by k", "select k, v, count(*) from (select k, v from p order by k) t group by k, v",
+        ])
+        arows = [(rng.choice([0, 1, None]), rng.choice([0, 1, 2])) for _ in range(rng.randint(4, 10))]
+        prows = [(rng.choice([0, 1, 2]), rng.choice([0, 1])) for _ in range(rng.randint(4, 10))]
+        steps = [{"sql": "create table a(x int, y int, s varchar)"}, {"sql": "create table p(k int primary key, v int)"}]
+        for part in (arows[: len(arows) // 2], arows[len(arows) // 2:]):
+            steps.append({"sql": "insert into a values " + ", ".join(f"({c02.lit(x)}, {c02.lit(y)}, 'r')" for x, y in part)})
+        for part in (prows[: len(prows) // 2], prows[len(prows) // 2:]):
+            steps.append({"sql": "insert into p values " + ", ".join(f"({k}, {v})" for k, v in part)})
+        steps += tail_steps(q)
+        cases.append({"engine": rng.choice(["disk", "disk", "mem"]), "steps": steps, "q": q, "ks": None, "tags": {"ordered-agg"}, "a": [arows], "b": []})
     # join keys of different numeric types on the two sides (INT = BIGINT, INT = SMALLINT): `=` compares by value, so must the
     # hash / merge join the optimiser chooses
     for i in range(60 if R.tier == "quick" else 800):
